@@ -575,6 +575,17 @@ def float_display_rule(ctx, prefix):
             obs.append(ob("%s/float-display/%s/no-int-cast" % (prefix, b["root"]), not casts, ctx.where(f),
                           "the float writer does not cast its value to an integer type" if not casts else "the float is cast: `%s as %s`" % (sir.expr_str(casts[0]["e"])[:30], casts[0]["ty"]),
                           witness=None if not casts else "{{ 1e19 }} emits 9223372036854775807"))
+    # floats are spelled by `Display` only (plain decimal digits, which the expression parser reads back); the exponent formats
+    # write `e21` / `e-7` forms whose sign conventions the parser and ECMAScript do not share with Rust
+    expf = []
+    for b in ctx.mir.bodies:
+        if b["crate"] != "glass_easel_template_compiler":
+            continue
+        for c in b["calls"]:
+            if re.search(r"new_(lower|upper)_exp::<&?f(32|64)>|as std::fmt::(LowerExp|UpperExp)>::fmt", c["generic"]):
+                expf.append("%s formats a float with an exponent format" % b["root"].split("::")[-1])
+    obs.append(ob("%s/float-display/no-exponent-format" % prefix, not expf, "escape.rs", "; ".join(sorted(set(expf))[:2]) if expf else "no float is written with `{:e}` / `{:E}`",
+                  witness=None if not expf else "{{ 1e21 }} is printed as 1e+21, which the parser rejects"))
     pcs = float_sites(ctx.pc_mir, {"poscontrol"})
     ok = any(b["root"] == "float_display" and not g for b, c, g in pcs)
     obs.append(ob("%s/float-display/positive-control" % prefix, ok, "fixtures/poscontrol", "detector finds the unguarded f64 Display of the fixture: %s" % ok))
